@@ -93,13 +93,17 @@ class C19(object):
     rule = ("one run = (ystep, y0 within +-10 steps, sinogram height 15..64 odd/even, 0-180 or 0-360 scan with 20..90 "
             "angles, point grain inside the scanned disc, ROI mask, second sinogram and scalar for linearity, workers "
             "1..16 incl. more workers than angles, strategy, interleaving of the pool threads); distinct = distinct "
-            "(geometry digest, workers, schedule signature); non-trivial = workers >= 2")
+            "(geometry digest, workers, schedule signature); non-trivial = workers >= 2; also: numpy in-place operations on shared arrays split at pre-emption points, sinograms and ROI masks in other memory layouts, empty projections, cubic/nearest interpolation, GrainSinogram parameter histories and a second object, PBPRefine.setmask on a stand-in dataset, non-square shapes in the conversions")
     components = {"real": ["ImageD11.sinograms.roi_iradon.run_iradon / iradon / _get_fourier_filter (unchanged Python)",
                            "ImageD11.sinograms.geometry (all conversion functions, sino_shift_and_pad, dty_values_grain_in_beam, "
-                           "dty_to_dtyi)", "numpy, scipy.fft (its own worker threads are not controlled; each 1-D transform is "
+                           "dty_to_dtyi, step_grid_from_ybincens)", "ImageD11.sinograms.sinogram.GrainSinogram (update_recon_parameters, recon)",
+                           "ImageD11.sinograms.point_by_point.PBPRefine (setmap, setmask)", "numpy, scipy.fft (its own worker threads are not controlled; each 1-D transform is "
                                           "computed by one thread and the digest self-test covers it)"],
                   "stub": ["concurrent.futures.ThreadPoolExecutor as seen by roi_iradon (simulated worker threads, results in "
-                           "submission order)"]}
+                           "submission order)",
+                           "numpy as seen by roi_iradon during a simulated run: arrays it allocates are RacyArray views whose in-place "
+                           "operators are split at pre-emption points (numpy releases the GIL there)",
+                           "the DataSet / PBPMap handed to PBPRefine and the grain / DataSet handed to GrainSinogram are minimal stand-ins"]}
     assumptions = ["the point grain's sinogram is a Gaussian profile (sigma 0.8 steps) centred on the continuous dty of the "
                    "grain; for 0-180 scans the grain lies inside the disc covered by every projection",
                    "the 1.5 px criterion is evaluated on the arg-max of the reconstruction, as the repository's own full-loop "
